@@ -52,7 +52,7 @@ def gen_cases(tier, seed):
     i = 0
     for variant in ["with-abort", "with-normal", "explicit", "helper-abort-closed", "helper-normal"]:
         for op in CONCAT_OPS:
-            for extra in ([0, 1] if tier == "quick" else [0, 1, 2, 3]):
+            for extra in ([0, 1] if tier == "quick" else [0, 1, 2, 2]):
                 cases.append({"kind": "concat", "variant": variant, "op": op, "extra": extra, "version": [2.0, 2.1][i % 2]})
                 i += 1
     return cases
@@ -140,17 +140,12 @@ def run_concat(case, rec):
                 expect.append((f"{hname}.collar", lambda r, hn=hname: [float(x) for x in hole(r, hn).collar.tolist()], [5.0 + j, 6.0, 7.0]))
 
         def session(w):
-            ops = [case["op"]] + [rng.choice(CONCAT_OPS[:4] if case["op"] == "pg-only-flags" else CONCAT_OPS[:-1]) for _ in range(case["extra"])]
+            # every operation of the session works on its own hole (three holes), so the expectations stay independent
+            ops = [case["op"]] + [rng.choice(CONCAT_OPS[:-1]) for _ in range(min(case["extra"], 2))]
             if case["op"] == "pg-only-flags":
-                ops = ["data-flag"] * (1 + case["extra"])
-            done_holes = set()
+                ops = ["data-flag"] * (1 + min(case["extra"], 2))
             for j, op in enumerate(ops):
-                if op in ("hole-rename", "remove-data", "data-rename") and (op, j % 3) in done_holes:
-                    continue
-                if any(o in ("hole-rename",) and jj % 3 == j % 3 for (o, jj) in done_holes):
-                    continue
                 do(op, w, j)
-                done_holes.add((op, j))
                 rec.see("concat-op:" + op)
 
         try:
